@@ -810,6 +810,11 @@ func (c *EvalCtx) call(v *ECall) TV {
 		// lock held? evaluated statically against the lockset
 		key := c.lockKey(v.Args[0])
 		return tvTerm(BoolLit(c.state().held[key]))
+	case "chanclosed":
+		// chanclosed(ch): the channel has been closed (ghost state behind the close-once obligation)
+		need(1)
+		ch := c.termOf(c.eval(v.Args[0]))
+		return tvTerm(c.x.chanGet(c.state(), "C$closed", ch, SBool))
 	case "received":
 		// received(ch): a value was received from channel ch on this path (ghost, path-sensitive)
 		need(1)
